@@ -561,6 +561,18 @@ def corr_lowlevel(R: Run, ns, rng, case, dtype, rotated=False, inject=False):
 
     f_dask.order, f_dask.res = [], None
     R.corr("c13 dask " + ln, f_dask, sig=sig)
+    if f_dask.res is not None:
+        # fill_uniform on the real output of _dask_rio_reproject, every (src_nodata, dst_nodata) pair
+        fv = spec_fill(dtype, sn, dn)
+        un = unreached_exact(case)
+        vals = f_dask.res[un]
+        good = (vals != vals) if (np.dtype(dtype).kind == "f" and math.isnan(float(fv))) else (vals == fv)
+        R.oracle(bool(np.all(good)), "unreached-pixel-not-fill-lowlevel",
+                 case_json(case, dtype=dtype, data=np.asarray(data).astype(float).tolist(), src_nd=nd_json(sn), dst_nd=nd_json(dn),
+                           deps=deps_s(deps), lowlevel=True),
+                 f"_dask_rio_reproject(src_nodata={sn}, dst_nodata={dn}, {dtype}): an unreached pixel holds "
+                 f"{vals[int(np.argmin(good))] if len(vals) else None}, expected fill {fv}",
+                 sig="lowlevel-fill|" + tag, trivial=not un.any())
 
     def f_numpy():
         dst = np.full((case["dh"], case["dw"]), 77).astype(dtype)
@@ -865,20 +877,20 @@ def run(R: Run):
             oracle_pair(R, ns, case, dtype, data, attr, dn, sched, 1, tag="witness")
 
     # 1. reference semantics and small pieces
-    spec_warp(R, ns, rng, R.pick(160, 288))
+    spec_warp(R, ns, rng, R.pick(200, 288))
     corr_small_ops(R, ns, rng)
 
     # 2. exact stream through the whole pipeline (model == real chunked, model == real in-memory)
     dts = list(DTYPES)
-    for i in range(R.pick(260, 2600)):
+    for i in range(R.pick(480, 3600)):
         rotated = i % 5 == 4
         case = gen_case(rng, rotated=rotated)
         corr_lowlevel(R, ns, rng, case, dts[i % len(dts)], rotated=rotated, inject=False)
-    for i in range(R.pick(120, 1200)):
+    for i in range(R.pick(240, 1800)):
         rotated = i % 4 == 3
         case = gen_case(rng, rotated=rotated, small=True)
         corr_lowlevel(R, ns, rng, case, dts[i % len(dts)], rotated=rotated, inject=True)
-    for i in range(R.pick(260, 2600)):
+    for i in range(R.pick(480, 3600)):
         case = gen_case(rng, rotated=(i % 6 == 5))
         corr_xr(R, ns, rng, case, dts[i % len(dts)])
 
@@ -896,8 +908,8 @@ def run(R: Run):
         oracle_pair(R, ns, case, dtype, data, None, None, "sync", 0, tag="edge0")
 
     # 3. leading time axis, cross CRS, other resampling (oracle only)
-    time_axis(R, ns, rng, R.pick(60, 600))
-    cross_crs(R, ns, rng, R.pick(80, 900))
+    time_axis(R, ns, rng, R.pick(120, 1000))
+    cross_crs(R, ns, rng, R.pick(160, 1500))
 
     R.searchers.append(searcher)
     R.assumptions.append("rasterio/GDAL nearest-neighbour warp between grids of one CRS follows Model.C13.gdalNearest "
@@ -945,6 +957,16 @@ def replay(R: Run, rec) -> int:
     case = case_from_json(cj)
     dtype = cj["dtype"]
     data = np.asarray(cj["data"]).astype(dtype)
+    if cj.get("lowlevel"):
+        sg, dg, _ = geoboxes(ns, case)
+        sn, dn = nd_from_json(cj["src_nd"]), nd_from_json(cj["dst_nd"])
+        out = ns.D._dask_rio_reproject(ns.da.from_array(data, chunks=(case["sy"], case["sx"])), sg, dg, "nearest", sn, dn,
+                                       ydim=0, chunks=(case["cy"], case["cx"])).compute(scheduler="synchronous")
+        fv = spec_fill(dtype, sn, dn)
+        vals = out[unreached_exact(case)]
+        good = (vals != vals) if (np.dtype(dtype).kind == "f" and math.isnan(float(fv))) else (vals == fv)
+        print("result:\n", out, "\nexpected fill on unreached pixels:", fv)
+        return 0 if bool(np.all(good)) else 1
     res = oracle_pair(R, ns, case, dtype, data, nd_from_json(cj["attr_nd"]), nd_from_json(cj["dst_nd"]), cj["sched"],
                       cj["sseed"], cj.get("tdim", 0), cj.get("tchunk", 1), tag="replay")
     if res is not None:
